@@ -171,6 +171,21 @@ def consume(report, results, runner_cfg, label):
         d["n"] += 1
         d["leaves"] += r.get("leaves", 0) or 0
         st = r["status"]
+        if r.get("debug_shift") == "unknown":
+            report.undecided("%s %s q=%s lz=%s: reachability of the all-ones fallback leaf with exponent below round()'s "
+                             "debug assertion is undecided" % (r["job"], r.get("fmt"), r.get("q"), r.get("lz")),
+                             {"obligation": "lemire_debug_shift"})
+        elif r.get("debug_shift") == "violated":
+            wv = (r.get("debug_shift_model") or {}).get("w")
+            rr = C.Runner(runner_cfg, "dev")
+            o = rr.query(["parse %s %s - %d" % (r["fmt"], wv, r["q"])])[0] if wv is not None else "?"
+            if o == "panic":
+                report.violation("debug build panics: parse_float(%s e%d) as %s" % (wv, r["q"], r["fmt"]),
+                                 {"kind": "debug_panic", "fmt": r["fmt"], "q": r["q"], "w": wv, "config": runner_cfg},
+                                 {"obligation": "lemire_debug_shift", "fmt": r["fmt"]})
+            else:
+                report.undecided("debug-shift counterexample did not reproduce (w=%s q=%s)" % (wv, r["q"]),
+                                 {"obligation": "lemire_debug_shift", "nonrepro": True})
         if st == "holds":
             ok += 1
             d["holds"] += 1
@@ -258,24 +273,52 @@ def validate_translator(report, config, seed, n=400):
 # Kani groups (engine E2)
 # --------------------------------------------------------------------------
 
-def run_kani(report, crate, config, harnesses, label, timeout=600, lanes=None, role_extra=None, cover_required=True):
+PANIC_CLASS = re.compile(r"attempt to .* with overflow|attempt to (divide|calculate the remainder)|panicked|"
+                         r"called `Option::unwrap\(\)` on a `None` value|assertion failed|unwrap|expect|"
+                         r"shift (left|right) with overflow|This is a placeholder message for a Kani panic")
+MEMORY_CLASS = re.compile(r"pointer|dereference|memcpy|memmove|out of bounds|overlap|invalid|NULL|dead object|"
+                          r"deallocated|misaligned|index out of bounds|slice|get_unchecked|assume_init|safety contract|undefined", re.I)
+
+
+def run_kani(report, crate, config, harnesses, label, timeout=600, lanes=None, role_extra=None, cover_required=True,
+             extra=(), accept_panics=False):
     from . import kani as K
-    res = K.run_many(crate, config, harnesses, lanes=lanes, timeout=timeout)
+    res = K.run_many(crate, config, harnesses, lanes=lanes, timeout=timeout, extra=extra)
     ok = 0
     tot_t = 0.0
+    # optional vacuity witnesses ("opt:" prefix) must be satisfiable in at least one harness of the group
+    opt_sat = set()
+    opt_all = set()
+    for r in res:
+        for d in r.get("covers_sat_desc", []):
+            if d.startswith("opt:"):
+                opt_sat.add(d)
+                opt_all.add(d)
+        for d in r.get("covers_unsat", []):
+            if d.startswith("opt:"):
+                opt_all.add(d)
+    for d in sorted(opt_all - opt_sat):
+        report.error("vacuity witness never satisfied in group %s/%s: %s" % (label, config, d))
     for r in res:
         tot_t += r.get("time_s") or 0.0
         report.queries += 1
         if r["status"] == "holds":
-            if cover_required and r["covers_unsat"]:
-                report.error("vacuity witness unsatisfied in %s: %s" % (r["harness"], r["covers_unsat"][:3]))
+            req_unsat = [d for d in r["covers_unsat"] if not d.startswith("opt:")]
+            if cover_required and req_unsat:
+                report.error("vacuity witness unsatisfied in %s: %s" % (r["harness"], req_unsat[:3]))
                 continue
             ok += 1
             report.sample({"kani_harness": r["harness"], "config": config, "cbmc_s": r.get("time_s"),
                            "covers_satisfied": r.get("covers_sat")})
+        elif r["status"] == "failed" and accept_panics and r["failed_checks"] and all(
+                PANIC_CLASS.search(c["desc"]) and not MEMORY_CLASS.search(c["desc"] + " " + c["check"]) for c in r["failed_checks"]):
+            # arbitrary-input harness: clean panics are an accepted outcome; every memory-safety check passed
+            ok += 1
+            report.sample({"kani_harness": r["harness"], "config": config, "clean_panics_accepted": len(r["failed_checks"])})
         elif r["status"] == "failed":
             desc = "Kani harness %s (%s) failed: %s" % (r["harness"], config, r["failed_checks"][:3])
-            rep, src, log = K.replay(crate, config, r["harness"])
+            rep, src, log = K.replay(crate, config, r["harness"], extra=extra)
+            stubbed = "stubbing" in extra
             role = {"obligation": "kani", "harness": r["harness"].split("::")[-1], "config": config}
             role.update(role_extra or {})
             if rep:
@@ -285,7 +328,14 @@ def run_kani(report, crate, config, harnesses, label, timeout=600, lanes=None, r
             else:
                 # standard-level UB (e.g. an out-of-bounds pointer) does not reproduce as a failing test
                 ub = [c for c in r["failed_checks"] if re.search(r"pointer|dereference|memcpy|out of bounds|overlap|invalid", c["desc"] + c["check"])]
-                if ub:
+                if stubbed and not ub:
+                    # trace-stub harnesses cannot be replayed natively (the stubs exist only under Kani): the failing
+                    # assertion over the logged call trace is the evidence
+                    report.violation(desc + " [trace-stub harness: not natively replayable]",
+                                     {"kind": "kani", "crate": crate, "config": config, "harness": r["harness"],
+                                      "failed_checks": r["failed_checks"][:10], "playback_test": src,
+                                      "playback_log": log[-1500:]}, role)
+                elif ub:
                     report.violation(desc + " [memory-safety check; counterexample not observable natively]",
                                      {"kind": "kani", "crate": crate, "config": config, "harness": r["harness"],
                                       "failed_checks": r["failed_checks"][:10], "playback_test": src,
@@ -299,3 +349,195 @@ def run_kani(report, crate, config, harnesses, label, timeout=600, lanes=None, r
     report.solver_s += tot_t
     report.group("%s/%s" % (label, config), len(res), ok, {"harnesses": [r["harness"] for r in res][:40]})
     return res
+
+
+# --------------------------------------------------------------------------
+# tables (engine E3)
+# --------------------------------------------------------------------------
+
+def run_tables(report, configs=("default", "compact")):
+    from . import tables as TB
+    jobs = []
+    if "default" in configs:
+        mp = C.mir_path("default", False)
+        jobs += [(TB.job_lemire_table, (mp,)), (TB.job_small_tables, (mp,)), (TB.job_power_formula, (mp,))]
+    if "compact" in configs:
+        mpc = C.mir_path("compact", False)
+        jobs += [(TB.job_bellerophon_tables, (mpc,))]
+    res = pool.run_jobs(jobs)
+    ok = 0
+    for r in res:
+        report.queries += 1
+        if r["status"] == "holds":
+            ok += 1
+            report.sample({k: r[k] for k in r if k in ("job", "entries", "checked", "smallest", "largest")})
+        elif r["status"] == "violated":
+            payload = dict(r)
+            payload["kind"] = "table"
+            report.violation("%s: %s" % (r["job"], r.get("detail")), payload, {"obligation": r["job"]})
+        elif r["status"] == "unknown":
+            report.undecided("%s: no verdict" % r["job"], {"obligation": r["job"]})
+        else:
+            report.error("%s: %s" % (r["job"], r.get("detail")))
+    report.group("tables", len(res), ok)
+    report.functions.update(["POWER_OF_FIVE_128", "SMALL_INT_POW5", "SMALL_INT_POW10", "SMALL_F32_POW10", "SMALL_F64_POW10",
+                             "LARGE_POW5", "LARGE_POW5_STEP", "lemire::power", "BASE10_SMALL_MANTISSA", "BASE10_LARGE_MANTISSA",
+                             "BASE10_SMALL_INT_POWERS", "BellerophonPowers::get_small", "BellerophonPowers::get_large"])
+    return res
+
+
+def run_kani_vec(report, tier, seed, which, config="default", lanes=None):
+    """which: subset of {'C13', 'C12'} (C12 includes the call-log stubbed harnesses)."""
+    from . import kani as K, vecgen
+    only = set(which) | ({"C12_stub"} if "C12" in which else set())
+    src, names = vecgen.generate(tier, seed, only=only)
+    K.set_generated("vec", {"src/instances.rs": src})
+    hs = []
+    for w in which:
+        hs += names[w]
+        if w == "C12":
+            hs += names["C12_stub"]
+    timeout = 400 if tier == "quick" else 1500
+    return run_kani(report, "vec", config, hs, "vec:" + "+".join(which), timeout=timeout, lanes=lanes or 14,
+                    extra=("-Z", "stubbing"))
+
+
+def run_kani_parse(report, tier, seed, which, config="default", lanes=None, accept_panics=False):
+    """which: subset of {'pn', 'pn_rel', 'pn_iter', 'pm', 'any'}."""
+    from . import kani as K, parsegen
+    src, names = parsegen.generate(tier, seed, only=set(which))
+    K.set_generated("parse", {"src/instances.rs": src})
+    hs = []
+    for w in which:
+        hs += names[w]
+    return run_kani(report, "parse", config, hs, "parse:" + "+".join(which), timeout=900 if tier == "quick" else 2400,
+                    lanes=lanes or 12, extra=("-Z", "stubbing"), accept_panics=accept_panics)
+
+
+def run_kani_slow(report, tier, seed, fmts=("f64", "f32"), config="default"):
+    from . import kani as K, slowgen
+    files, names = slowgen.generate(tier, seed)
+    K.set_generated("slow", files)
+    hs = sorted(set(h for f in fmts for h in names[f]))
+    return run_kani(report, "slow", config, hs, "slow-glue", timeout=900, lanes=8, extra=("-Z", "stubbing"))
+
+
+def run_kani_frontend(report, tier, seed, config="default"):
+    from . import kani as K, fegen
+    files, names = fegen.generate(tier, seed)
+    K.set_generated("frontend", files)
+    return run_kani(report, "frontend", config, names, "frontend", timeout=1200 if tier == "quick" else 3600, lanes=12)
+
+
+def run_kani_core(report, tier, seed, prefixes, config="default"):
+    from . import kani as K
+    hs = [h for h in K.list_harnesses("core") if any(h.split("::")[-1].startswith(p) for p in prefixes)]
+    return run_kani(report, "core", config, hs, "core:" + "+".join(prefixes), timeout=600, lanes=8)
+
+
+def run_fast_path(report, tier, seed, fmts=("f64", "f32")):
+    mp = C.mir_path("default", False)
+    jobs = []
+    for fmt in fmts:
+        lo, hi = (-24, 40) if fmt == "f64" else (-12, 20)
+        for q in range(lo, hi + 1):
+            jobs.append((J.job_fast_path, (mp, fmt, q, 30)))
+    res = pool.run_jobs(jobs)
+    consume(report, res, "default", "fast-path")
+    report.functions.update(["Number::try_fast_path", "Number::is_fast_path", "num::int_pow_fast_path",
+                             "Float::pow_fast_path", "Float::from_u64"])
+    return res
+
+
+def run_sticky(report):
+    from . import tables as TB
+    mp = C.mir_path("default", False)
+    r = TB.job_sticky_lemma((mp,))
+    report.queries += 1
+    if r["status"] == "holds":
+        report.group("sticky-lemma", 1, 1, r.get("checked"))
+        report.sample({"job": "sticky_lemma", "checked": r.get("checked")})
+    elif r["status"] == "violated":
+        report.group("sticky-lemma", 1, 0)
+        report.violation("sticky lemma: " + r.get("detail", ""), dict(r, kind="table"), {"obligation": "sticky_lemma"})
+    else:
+        report.group("sticky-lemma", 1, 0)
+        report.error("sticky lemma: %s" % r.get("detail"))
+    return r
+
+
+def run_capacity(report):
+    from . import tables as TB
+    mp = C.mir_path("default", False)
+    r = TB.job_capacity((mp,))
+    report.queries += 1
+    ok = r["status"] == "holds"
+    report.group("capacity", 1, 1 if ok else 0, r.get("checked"))
+    if ok:
+        report.sample({"job": "capacity", "checked": r.get("checked")})
+    elif r["status"] == "violated":
+        report.violation("big-integer capacity: " + r.get("detail", ""), dict(r, kind="table"), {"obligation": "capacity"})
+    else:
+        report.error("capacity: %s" % r.get("detail"))
+    return r
+
+
+FORBID = ["#[kani::stub(std::alloc::alloc, crate::forbid_alloc)]",
+          "#[kani::stub(std::alloc::alloc_zeroed, crate::forbid_alloc)]",
+          "#[kani::stub(std::alloc::realloc, crate::forbid_realloc)]"]
+FORBID_FN = """
+/// C15: replacements for the global allocation entry points in configurations without `alloc`.
+pub unsafe fn forbid_alloc(_layout: core::alloc::Layout) -> *mut u8 {
+    panic!("HEAP-ALLOCATION");
+}
+pub unsafe fn forbid_realloc(_p: *mut u8, _layout: core::alloc::Layout, _n: usize) -> *mut u8 {
+    panic!("HEAP-ALLOCATION");
+}
+"""
+
+
+def _with_forbid(src):
+    """Add the allocation stubs to every generated proof harness."""
+    attrs = "\n".join(FORBID)
+    return src.replace("#[kani::proof]\n", "#[kani::proof]\n" + attrs + "\n")
+
+
+def run_forbid_alloc(report, tier, seed):
+    from . import kani as K, parsegen, vecgen, slowgen
+    # vacuity twin first: a harness that allocates must fail under the stub
+    tw = K.run_batch("core", "default", ["alloc_twin::c15_twin_must_fail"], timeout=300, extra_args=("-Z", "stubbing"))
+    if tw[0]["status"] != "failed" or not any("HEAP-ALLOCATION" in c["desc"] for c in tw[0]["failed_checks"]):
+        report.error("forbid_alloc twin did not fail: the allocation stub is not effective (%s)" % tw[0]["status"])
+    report.group("forbid-alloc/twin-must-fail", 1, 1 if tw[0]["status"] == "failed" else 0)
+    libadd = "\n#[cfg(kani)]\npub use forbid::*;\n#[cfg(kani)]\nmod forbid {" + FORBID_FN + "}\n"
+    # digit loops
+    src, names = parsegen.generate(tier, seed, only={"pn", "pm"})
+    lib = open(C.os.path.join(C.VERIF, "kani", "parse", "src", "lib.rs")).read() + libadd
+    K.set_generated("parse", {"src/instances.rs": _with_forbid(src), "src/lib.rs": lib})
+    hs = names["pn"][:8] + names["pm"]
+    run_kani(report, "parse", "default", hs, "forbid-alloc/digit-loops", timeout=900, lanes=12, extra=("-Z", "stubbing"))
+    K.set_generated("parse", {})
+    # big-integer primitives incl. long multiplication and pow
+    src, names = vecgen.generate("thorough" if tier == "thorough" else "quick", seed, only={"C12", "C12_stub"})
+    lib = open(C.os.path.join(C.VERIF, "kani", "vec", "src", "lib.rs")).read() + libadd
+    extra_lm = ""
+    K.set_generated("vec", {"src/instances.rs": _with_forbid(src), "src/lib.rs": lib})
+    hs = [h for h in names["C12"] + names["C12_stub"] if any(k in h for k in ("large_add_from", "small_mul", "pow_", "long_mul", "hi64_2", "hi64_62", "shl_limbs_2"))]
+    run_kani(report, "vec", "default", hs[:40], "forbid-alloc/bigint", timeout=900, lanes=12, extra=("-Z", "stubbing"))
+    K.set_generated("vec", {})
+    # slow glue
+    files, names = slowgen.generate(tier, seed)
+    lib = open(C.os.path.join(C.VERIF, "kani", "slow", "src", "lib.rs")).read() + libadd
+    files = dict(files)
+    files["src/instances.rs"] = _with_forbid(files["src/instances.rs"])
+    files["src/lib.rs"] = lib
+    K.set_generated("slow", files)
+    hs = sorted(set(names["f64"] + names["f32"]))
+    run_kani(report, "slow", "default", hs, "forbid-alloc/slow-glue", timeout=900, lanes=8, extra=("-Z", "stubbing"))
+    K.set_generated("slow", {})
+    # syntactic side condition on the non-alloc MIR
+    txt = C.mir_dump("default", False)
+    hits = sorted(set(re.findall(r"(?:alloc::(?:vec|string|boxed|alloc)::[\\w:<>]+|std::vec::[\\w:]+|alloc::fmt::format)", txt)))
+    report.extra["alloc_paths_in_default_mir"] = hits[:20]
+    if hits:
+        report.error("the default-feature MIR calls allocation-related paths: %r" % hits[:5])
